@@ -669,6 +669,14 @@ func (f *fragment) setBit(rowID, columnID uint64) (changed bool, err error) {
 
 	// handle mutux field type
 	if f.mutexVector != nil {
+		// The clear of the previous row and the set of the new one reach
+		// the op log together.
+		flush := f.bufferOps()
+		defer func() {
+			if e := flush(); e != nil && err == nil {
+				changed, err = false, errors.Wrap(e, "writing")
+			}
+		}()
 		if err := f.handleMutex(rowID, columnID); err != nil {
 			return changed, errors.Wrap(err, "handling mutex")
 		}
@@ -1016,6 +1024,15 @@ func (f *fragment) setValueBase(columnID uint64, bitDepth uint, value int64, cle
 	if mustClose {
 		defer f.safeClose()
 	}
+
+	// The entries for the value's bit rows, the not-null row and the sign
+	// row reach the op log together.
+	flush := f.bufferOps()
+	defer func() {
+		if e := flush(); e != nil && err == nil {
+			err = errors.Wrap(e, "writing")
+		}
+	}()
 
 	// Convert value to an unsigned representation.
 	uvalue := uint64(value)
@@ -2101,7 +2118,7 @@ func (f *fragment) bulkImportStandard(rowIDs, columnIDs []uint64, options *Impor
 // importPositions tries to intelligently decide whether or not to do a full
 // snapshot of the fragment or just do in-memory updates while appending
 // operations to the op log.
-func (f *fragment) importPositions(set, clear []uint64, rowSet map[uint64]struct{}) error {
+func (f *fragment) importPositions(set, clear []uint64, rowSet map[uint64]struct{}) (err error) {
 	mustClose, err := f.reopen()
 	if err != nil {
 		return errors.Wrap(err, "reopening")
@@ -2109,6 +2126,14 @@ func (f *fragment) importPositions(set, clear []uint64, rowSet map[uint64]struct
 	if mustClose {
 		defer f.safeClose()
 	}
+
+	// The add batch and the remove batch reach the op log together.
+	flush := f.bufferOps()
+	defer func() {
+		if e := flush(); e != nil && err == nil {
+			err = errors.Wrap(e, "writing")
+		}
+	}()
 
 	if len(set) > 0 {
 		f.stats.Count("ImportingN", int64(len(set)), 1)
@@ -2337,6 +2362,37 @@ func (f *fragment) importRoaring(ctx context.Context, data []byte, clear bool) e
 	f.incrementOpN(changed)
 	span.Finish()
 	return nil
+}
+
+// bufferOps collects the op log entries written from now on in memory; the
+// returned function appends them to the data file with a single write. A
+// logical write that consists of several entries (an integer value is one
+// entry per bit row, a mutex set is a clear and a set, an import is an add
+// batch and a remove batch) must not be torn apart by a crash: replaying only
+// the first of its entries yields a value that was never written, or a mutex
+// column with two rows or none. f.mu must be held until the returned function
+// has been called.
+func (f *fragment) bufferOps() (flush func() error) {
+	w := f.storage.OpWriter
+	if w == nil {
+		return func() error { return nil }
+	}
+	buf := &bytes.Buffer{}
+	f.storage.OpWriter = buf
+	return func() error {
+		if f.storage.OpWriter != io.Writer(buf) {
+			// The storage was snapshotted and reopened in the meantime
+			// (synchronous snapshots, when there is no snapshot queue):
+			// the snapshot holds everything buffered so far.
+			return nil
+		}
+		f.storage.OpWriter = w
+		if buf.Len() == 0 {
+			return nil
+		}
+		_, err := w.Write(buf.Bytes())
+		return err
+	}
 }
 
 // incrementOpN increase the operation count by one.
